@@ -45,7 +45,7 @@ type c23Case struct {
 	Ops []c23Op `json:"ops"`
 }
 
-var c23Unicode = []string{"# комментарий\n", "/* 😀 */ ", "'→': /→/\n", "# 𝒳𝒴\n", "/* é */", "\"ü\" ", "привет ", "😀"}
+var c23Unicode = []string{"# комментарий\n", "/* 😀 */ ", "'→': /→/\n", "# 𝒳𝒴\n", "/* é */", "\"ü\" ", "привет ", "😀", "/*€*/", "'中': /中/\n", "\"€\" "}
 
 func c23GenText(t *rapid.T) string {
 	sp := shippedByName("tm")
@@ -68,7 +68,9 @@ func c23GenText(t *rapid.T) string {
 	for n := rapid.IntRange(0, 2).Draw(t, "lineComments"); n > 0; n-- {
 		lines := strings.SplitAfter(s, "\n")
 		k := rapid.IntRange(0, len(lines)-1).Draw(t, "commentLine")
-		lines[k] = []string{"/*😀*/", "/* é𝒳 */ ", "/*😀😀*/ "}[rapid.IntRange(0, 2).Draw(t, "commentKind")] + lines[k]
+		// (one, two, three and four byte sequences, and the boundaries between them)
+		kinds := []string{"/*😀*/", "/* é𝒳 */ ", "/*😀😀*/ ", "/*€€*/ ", "/*中文*/", "/*\u007f\u0080߿ࠀ*/ ", "/*￮￿\U00010000*/ ", "/*࿿က*/"}
+		lines[k] = kinds[rapid.IntRange(0, len(kinds)-1).Draw(t, "commentKind")] + lines[k]
 		s = strings.Join(lines, "")
 	}
 	if !utf8.ValidString(s) {
